@@ -3932,7 +3932,13 @@ class Phonopy:
         ph_dict = ph_copy.get_qpoints_dict()
         d2f.dynamical_matrices = ph_dict["dynamical_matrices"]
         d2f.run()
-        ph.force_constants = d2f.force_constants
+        if self._frequency_scale_factor is None:
+            ph.force_constants = d2f.force_constants
+        else:
+            # The dynamical matrices above already contain frequency_scale_factor**2.
+            # The returned instance applies it again, so the unscaled force constants
+            # are stored.
+            ph.force_constants = d2f.force_constants / self._frequency_scale_factor**2
 
         return ph
 
